@@ -24,18 +24,24 @@ def run(c):
     N = 8
     rng = np.random.default_rng(c["seed"])
     fl = []
+    psfs_ = []
     nb = c["n_bands"]
     for b in range(nb):
         data = rng.normal(size=(N, N)).astype(np.float32) + 2.0
         rms = (np.abs(rng.normal(size=(N, N))) * 0.2 + 0.5).astype(np.float32)
         mask = rng.random((N, N)) < 0.2
         kw = dict(os_pixel_size=1, num_os=2)
+        xs_ = np.arange(3) - 1.0
+        sg_ = 0.7 + 0.45 * b                   # every band has its own PSF width
+        pb_ = np.exp(-0.5 * (xs_[:, None] ** 2 + xs_[None, :] ** 2) / sg_ ** 2)
+        pb_ = (pb_ / pb_.sum()).astype(np.float32)
+        psfs_.append(pb_)
         if c["fitter"] == "single":
             prior = source_prior(c["types"][0], c["sky"], "", N, sky_guess=1.0, sky_err=0.5)
-            fl.append(FitSingle(data, rms, psf_stamp("gauss", 3), prior, mask=mask, renderer=PixelRenderer, renderer_kwargs=kw))
+            fl.append(FitSingle(data, rms, pb_, prior, mask=mask, renderer=PixelRenderer, renderer_kwargs=kw))
         else:
             prior = multi_prior(c["types"], c["sky"], "", N, sky_guess=1.0, sky_err=0.5)
-            fl.append(FitMulti(data, rms, psf_stamp("gauss", 3), prior, mask=mask, renderer=PixelRenderer, renderer_kwargs=kw))
+            fl.append(FitMulti(data, rms, pb_, prior, mask=mask, renderer=PixelRenderer, renderer_kwargs=kw))
     names0 = list(fl[0].prior.dist_dict.keys())
     out = {"oracle": [], "param_names": names0}
     wv = np.array(c["wavelengths"], dtype=float)
@@ -103,6 +109,26 @@ def run(c):
         for b in bands:
             if "%s_%s" % (p, b) in tr:
                 out["oracle"].append("constant parameter %s also has a per-band site" % p)
+    # each band's model image is the rendering of that band's parameter values with THAT band's own PSF (single-source, no sky:
+    # independent re-rendering with a fresh renderer built from the band's PSF)
+    trm = trace_at(mb.build_model(return_model=True), vals) if (c["fitter"] == "single" and c["sky"] == "none") else {}
+    if "model" in trm:
+        allobs = np.asarray(trm["model"]["value"], np.float64)
+        for bi, b in enumerate(bands):
+            try:
+                P = {}
+                for pn in names0:
+                    if "%s_%s" % (pn, b) in tr:
+                        P[pn] = float(tr["%s_%s" % (pn, b)]["value"])
+                    else:
+                        P[pn] = float(tr[pn]["value"])
+                rr_ = PixelRenderer((N, N), jnp.array(psfs_[bi]), os_pixel_size=1, num_os=2)
+                want = np.asarray(rr_.render_source(P, c["types"][0]), np.float64)
+                dev = np.abs(allobs[bi] - want).max() / max(np.abs(want).max(), 1e-30)
+                if not dev <= 1e-4:
+                    out["oracle"].append("band %s is not rendered with its own PSF / parameters: model image differs from the independent rendering by %.3g of the peak" % (b, dev))
+            except KeyError:
+                pass
     # density = sum over sites; each band's Loss site depends only on that band's data / rms / mask
     ld = float(log_density(m, (), {}, vals)[0])
     tot = sum(float(np.sum(np.asarray(s["fn"].log_prob(s["value"]), np.float64))) for s in tr.values() if s["type"] == "sample")
